@@ -69,6 +69,8 @@ type Store struct {
 	openCur  int
 	Trace    []Call // recorded when Record is on
 	Record   bool
+	// Poisoned: a leaked transaction was observed at some point; the instance must be abandoned, never closed
+	Poisoned bool
 
 	// plan observations
 	SeekKeys      [][]byte
@@ -111,6 +113,9 @@ func (s *Store) Leaks() (openTx, openWriteTx, openCursors int) {
 func (s *Store) ForgetLeaks() {
 	s.mu.Lock()
 	defer s.mu.Unlock()
+	if len(s.openTx) > 0 {
+		s.Poisoned = true // a transaction was left open below: closing or rewriting this store may block forever
+	}
 	s.openTx = map[int]bool{}
 	s.openCur = 0
 }
